@@ -349,24 +349,26 @@ class C06(Prop):
         'Python semantics of ==, <, in, len, iter, startswith, isinstance, getattr on the value universe are modelled (TTV/Model/Matchers.lean), not verified',
         'dicts/objects are built with ascending keys and objects/exceptions/callables are interned per case, so that == and `is` are structural equality in the model',
         'opaque leaves (MatchesRegex, DocTestMatches, filesystem matchers, Warnings/IsDeprecated/WarningMessage, MatchesPredicate[WithParams]) are tested against an independent oracle, not proved',
-        'the iteration order of set(self.matchers) in MatchesSetwise is forced by re-allocating the matcher objects until list(set(..)) has the order given in the input',
+        'the two builds of an expression differ in the iteration order of set(<matchers of a MatchesSetwise>), forced by re-allocating the matcher objects until list(set(..)) has the order given in the input (the verdict must not depend on it)',
+        'MatchesSetwise asks every matcher about every value once, value by value (the first exception propagates); the pairing algorithm itself is abstracted to its outcome',
         'the class of an exception propagating out of an expression that contains a dict matcher is compared as Any (set-of-str iteration order is randomised per process; non-dict matchees make the three parts raise different classes)',
         'exc_info tuples are never iterated / compared by == inside Raises (their traceback member is outside the value universe)',
     ]
 
     manifest = {
-        'text': 'Theorem C06_sound_partial, by structural induction over matcher expressions of any depth (all stock matchers and combinators; '
+        'text': 'Theorem C06_sound, by structural induction over matcher expressions of any depth (all stock matchers and combinators; '
                 'leaves whose meaning lives in re/doctest/os/warnings as arbitrary predicate tables): for every value in the documented domain '
                 'match() returns exactly the documented verdict (Not negates, MatchesAll/Any = and/or, AllMatch/AnyMatch = forall/exists, '
-                'MatchesListwise positional with equal length, dict matchers = key-set condition + per-key matchers, MatchesStructure per attribute, '
-                'Annotate/AfterPreprocessing transparent, SameMembers <=> List.Perm, Raises with the propagate rule), for either set-iteration order; '
-                'full strength for every expression without MatchesSetwise (C06_sound_setwiseFree); for MatchesSetwise: specification = existence of a '
-                'one-to-one assignment (C06_spec_setwise_assignment), greedy code proved equal to it when no value matches two matchers; the remaining '
-                'case is the recorded finding D5 (C06_setwise_witness: two set orders, two verdicts). Determinism/purity hold by construction of the model. '
-                'The hand-written model is tied to the code by a differential check over random value-directed expressions with forced set orders.',
-        'note': 'partial: finding D5 (class ambiguousSetwise) excluded from the soundness/determinism theorems; opaque leaves (regex, doctest, filesystem, '
-                'warnings, MatchesPredicate over harness predicates) are tested against an independent oracle, not proved; Python ==, <, in, len, iter, '
-                'getattr on the value universe are modelled, not verified',
+                'MatchesListwise positional with equal length, MatchesSetwise = a one-to-one pairing of all values with all matchers exists '
+                '(C06_setwise, C06_spec_setwise_assignment), dict matchers = key-set condition + per-key matchers, MatchesStructure per attribute, '
+                'Annotate/AfterPreprocessing transparent, SameMembers <=> List.Perm, Raises with the propagate rule), for either build of the '
+                'expression (C06_deterministic: no dependence on hash-set order). holds_model is unconditional. Determinism/purity hold by '
+                'construction of the model. The hand-written model is tied to the code by a differential check over random value-directed '
+                'expressions (with a dedicated generator of ambiguous pairing instances) built twice with forced hash-set orders.',
+        'note': 'MatchesSetwise: the pairing algorithm (augmenting paths) is not transcribed, the model computes its outcome by exhaustive search, '
+                'the tie is the differential check; opaque leaves (regex, doctest, filesystem, warnings, MatchesPredicate over harness predicates) '
+                'are tested against an independent oracle, not proved; Python ==, <, in, len, iter, getattr on the value universe are modelled, '
+                'not verified',
         'technique': 'Lean 4 mutual structural induction over a nested matcher AST (matchImpl following the code vs. a declarative spec), executable '
                      'spec shared with a differential correspondence check (value-directed generator, forced hash-set orders, independent oracles)',
     }
@@ -681,6 +683,8 @@ class C06(Prop):
     # ----- generators
     def gen(self, rng, tier):
         g = Gen(rng, self)
+        if rng.random() < 0.14:
+            return pairing_case(rng)
         depth = rng.choice([0, 1, 1, 2, 2, 2, 3, 3, 4])
         while True:
             v = g.value()
@@ -723,6 +727,7 @@ class C06(Prop):
                 f.append('order-dependent')
         else:
             f.append('trace:' + str(trace[0]))
+        f += greedy_report(m, v)
         s = repr(m)
         for h in ("'setwise'", "'opq'", "'pred'", "'dict'", "'struct'", "'raises'", "'exctypeV'", "'listwise'", "'same'"):
             if h in s:
@@ -739,6 +744,102 @@ class C06(Prop):
             c = self.complete([m, v2])
             if c is not None:
                 yield c
+
+
+def pairing_case(r):
+    """MatchesSetwise instances in which values match several matchers: a hidden one-to-one pairing plus extra
+    edges (or a chain with a unique pairing), sometimes spoilt (two matchers competing for one value, a missing /
+    extra matcher); matchers, values and both hash-set orders shuffled independently, so that the greedy
+    first-accepting-matcher choice of the pinned tree is frequently not part of any full pairing."""
+    n = r.choice([2, 3, 3, 4, 4, 5])
+    pool = [['i', k] for k in range(1, 8)] + [['s', 97], ['s', 98], None]
+    vals = r.sample(pool, n)
+    mode = r.random()
+    acc = []
+    if mode < 0.35:          # chain: matcher j accepts values j and j+1, the last one only value 0 -> unique pairing
+        for j in range(n):
+            acc.append({j, j + 1} if j + 1 < n else {0})
+    else:
+        perm = list(range(n))
+        r.shuffle(perm)
+        p_extra = r.choice([0.2, 0.4, 0.6])
+        for j in range(n):
+            acc.append({perm[j]} | {k for k in range(n) if r.random() < p_extra})
+    x = r.random()
+    if x < 0.15:             # spoil it: matcher 0 now competes with matcher 1 for the same single value
+        acc[0] = {min(acc[1])}
+        acc[1] = {min(acc[1])}
+    elif x < 0.22:
+        acc = acc[:-1]
+    elif x < 0.29:
+        acc.append({r.randrange(n)})
+
+    def matcher(a):
+        a = sorted(a)
+        if len(a) == n and r.random() < 0.5:
+            return r.choice([['always'], ['not', ['never']]])
+        if len(a) == 1 and r.random() < 0.6:
+            return ['eq', vals[a[0]]]
+        return ['any'] + [['eq', vals[k]] for k in a]
+    ms = [matcher(a) for a in acc]
+    r.shuffle(ms)
+    order = list(range(n))
+    r.shuffle(order)
+    ka = list(range(len(ms)))
+    r.shuffle(ka)
+    kb = list(range(len(ms)))
+    r.shuffle(kb)
+    m = ['setwise', ka, kb] + ms
+    v = ['l'] + [vals[k] for k in order]
+    x = r.random()
+    if x < 0.15:
+        m = ['not', m]
+    elif x < 0.25:
+        m, v = ['allmatch', m], ['l', v, v]
+    elif x < 0.3:
+        m = ['annot', m]
+    return [m, v]
+
+
+def greedy_report(m, v):
+    """for a root MatchesSetwise over eq / any-of-eq / always matchers on a list: does a full pairing exist, and would
+    the first-accepting-matcher loop of the pinned tree find one in the two hash-set orders?  (evidence only)"""
+    if m[0] != 'setwise' or not isinstance(v, list) or v[0] != 'l':
+        return []
+    vals, ms = v[1:], m[3:]
+
+    def accepts(t, x):
+        if t == ['always'] or t == ['not', ['never']]:
+            return True
+        if t[0] == 'eq':
+            return t[1] == x
+        if t[0] == 'any' and all(c[0] == 'eq' for c in t[1:]):
+            return any(c[1] == x for c in t[1:])
+        raise ValueError
+    try:
+        A = [[accepts(t, x) for t in ms] for x in vals]
+    except ValueError:
+        return []
+    import itertools
+    exists = len(vals) == len(ms) and any(all(A[i][p[i]] for i in range(len(vals))) for p in itertools.permutations(range(len(ms))))
+
+    def greedy(keys):
+        rem = sorted(range(len(ms)), key=lambda i: (keys[i], i))
+        for i in range(len(vals)):
+            for j in rem:
+                if A[i][j]:
+                    rem.remove(j)
+                    break
+            else:
+                return False
+        return not rem
+    out = ['pairing:' + ('exists' if exists else 'none')]
+    if any(sum(row) > 1 for row in A):
+        out.append('pairing:value-matches-several')
+    if exists:
+        fa, fb = not greedy(m[1]), not greedy(m[2])
+        out.append('pairing:greedy-misses-it-in-' + ('both-orders' if fa and fb else 'one-order' if fa or fb else 'no-order'))
+    return out
 
 
 LEAF_HEADS = {'eq', 'ne', 'is', 'lt', 'gt', 'same', 'starts', 'ends', 'contains', 'isinst', 'len', 'always', 'never', 'keys',
